@@ -169,6 +169,17 @@ Definition wf_container (c : container) : Prop :=
   (forall p q, In p (c_paths c) -> In q (proper_prefixes p) -> In q (c_dirs c)) /\
   (forall f, In f (c_files c) -> (0 <= snd f)%Z).
 
+Fixpoint nodup_paths (l : list path) : bool :=
+  match l with
+  | [] => true
+  | p :: r => negb (existsb (path_eqb p) r) && nodup_paths r
+  end.
+(** boolean version for the executable side *)
+Definition wf_containerb (c : container) : bool :=
+  nodup_paths (c_paths c) && negb (existsb (path_eqb []) (c_paths c)) &&
+  forallb (fun p => forallb (fun q => existsb (path_eqb q) (c_dirs c)) (proper_prefixes p)) (c_paths c) &&
+  forallb (fun f => (0 <=? snd f)%Z) (c_files c).
+
 (** what Prepare lays out for a container: directories, zero-filled files of the declared
     sizes, symlinks *)
 Definition ctree (c : container) : tree :=
@@ -199,11 +210,6 @@ Definition wf_build (b : build) : Prop :=
   forall p n q, In (p, n) b -> In q (proper_prefixes p) -> In (q, Dir) b.
 
 (** boolean version for the executable side *)
-Fixpoint nodup_paths (l : list path) : bool :=
-  match l with
-  | [] => true
-  | p :: r => negb (existsb (path_eqb p) r) && nodup_paths r
-  end.
 Definition wf_buildb (b : build) : bool :=
   nodup_paths (map fst b) && negb (existsb (path_eqb []) (map fst b)) &&
   forallb (fun e => forallb (fun q => match tlookup b q with Some Dir => true | _ => false end)
